@@ -11,7 +11,7 @@ pub const SPECIAL_INITIAL: &[u8] = b"!$%&*/:<=>?^_~@";
 pub fn gen_char(r: &mut Rng) -> char {
     match r.below(12) {
         0 => char::from(r.below(32) as u8),
-        1 => *r.pick(&['"', '\\', '\u{7f}', ' ', '(', ')', '[', ']', ';', '#', '|', '\'', '`', ',', '.', '?']),
+        1 => *r.pick(&['\n', '\n', '^', '"', '\\', '\u{7f}', ' ', '(', ')', '[', ']', ';', '#', '|', '\'', '`', ',', '.', '?']),
         2 => char::from_u32(0x80 + r.below(0x80) as u32).unwrap(),
         3 => *r.pick(&['\u{7ff}', '\u{800}', '\u{d7ff}', '\u{e000}', '\u{ffff}', '\u{10000}', '\u{10ffff}', '\u{fffe}', '\u{ff}', '\u{100}', '\u{80}', '\u{7f}']),
         4 => *r.pick(ALPHA_UNI),
@@ -197,7 +197,12 @@ pub fn gen_value(r: &mut Rng, c: &VCfg, depth: usize) -> Value {
     if depth == 0 || r.chance(2, 5) {
         return gen_atom(r, c);
     }
-    match r.below(4) {
+    match r.below(5) {
+        4 => {
+            // a two-element list headed by one of the four shorthand symbols
+            let head = *r.pick(&["quote", "quasiquote", "unquote", "unquote-splicing"]);
+            Value::list(vec![Value::symbol(head), gen_value(r, c, depth - 1)])
+        }
         0 => {
             // vector
             let n = if r.chance(1, 5) { 0 } else { r.below(c.maxlen + 1) };
@@ -269,7 +274,7 @@ pub fn compatible_ropts(r: &mut Rng, p: &str) -> Option<String> {
     Some(format!("{}{}{}{}{}{}{}{}{}{}", k[0], k[1], k[2], r.below(3), r.below(2), br, string, ch, r.below(2), r.below(2)))
 }
 
-pub const TRIVIA: &[&str] = &[" ", "\t", "\r", "\n", "\x0c", ";c\n", "; (\" \r\n", ";\n", "  ", "\r\n", " ;λ\n "];
+pub const TRIVIA: &[&str] = &[" ", "\t", "\r", "\n", "\x0c", ";c\n", "; (\" \r\n", ";\n", "  ", "\r\n", " ;λ\n ", ";a\0b (x\n", ";\x01\x7f\\|#\n"];
 
 pub fn gen_trivia(r: &mut Rng, nonempty: bool) -> String {
     let n = if nonempty { 1 + r.below(2) } else { r.below(3) };
@@ -285,6 +290,57 @@ pub fn gen_trivia(r: &mut Rng, nonempty: bool) -> String {
 pub fn print_with_trivia(r: &mut Rng, v: &Value, p: &str, level: usize, out: &mut Vec<u8>) {
     let po = print_opts(p);
     let vec_br = p.as_bytes()[3] == b'1';
+    // alternative surface syntax for the same value (level > 0 only; level 0 is the printer's own text):
+    // quote shorthands with optional trivia before the datum, string literals with raw control
+    // characters and line feeds, byte vectors laid out over several lines, the literal LF character
+    if level > 0 {
+        match v {
+            Value::Cons(c) => {
+                let sh = match c.car().as_symbol() { Some("quote") => "'", Some("quasiquote") => "`", Some("unquote") => ",", Some("unquote-splicing") => ",@", _ => "" };
+                if !sh.is_empty() && r.chance(2, 3) {
+                    if let Value::Cons(c2) = c.cdr() {
+                        if c2.cdr().is_null() {
+                            out.extend(sh.bytes());
+                            let triv = if r.chance(1, 2) { gen_trivia(r, true) } else { String::new() };
+                            let mut inner = Vec::new();
+                            print_with_trivia(r, c2.car(), p, level, &mut inner);
+                            // `,` directly before a datum starting with `@` would be the `,@` shorthand
+                            if triv.is_empty() && sh == "," && inner.first() == Some(&b'@') { out.push(b' '); }
+                            out.extend(triv.bytes());
+                            out.extend(inner);
+                            return;
+                        }
+                    }
+                }
+            }
+            Value::String(st) if r.chance(1, 3) && !st.contains('\u{85}') => {
+                out.push(b'"');
+                for ch in st.chars() {
+                    if ch == '"' || ch == '\\' { out.push(b'\\'); }
+                    let mut buf = [0u8; 4];
+                    out.extend(ch.encode_utf8(&mut buf).bytes());
+                }
+                out.push(b'"');
+                return;
+            }
+            Value::Bytes(bs) if r.chance(1, 2) && p.as_bytes()[4] != b'2' => {
+                out.extend(if p.as_bytes()[4] == b'0' { &b"#vu8("[..] } else { &b"#u8("[..] });
+                out.extend(gen_trivia(r, false).bytes());
+                for (i, b) in bs.iter().enumerate() {
+                    if i > 0 { out.extend(gen_trivia(r, true).bytes()); }
+                    out.extend(b.to_string().bytes());
+                }
+                out.extend(gen_trivia(r, false).bytes());
+                out.push(b')');
+                return;
+            }
+            Value::Char('\n') if p.as_bytes()[6] == b'0' && r.chance(1, 2) => {
+                out.extend(b"#\\\n");
+                return;
+            }
+            _ => {}
+        }
+    }
     match v {
         Value::Cons(c) => {
             out.push(b'(');
@@ -742,27 +798,38 @@ pub fn generate(family: &str, seed: u64, count: usize, emit: &mut dyn FnMut(Stri
                     1 => { let n = 1 + r.below(6); (gen_token_soup(&mut r, n, false), gen_ropts(&mut r)) }
                     _ => random_text(&mut r),
                 };
-                let mut tab: Vec<String> = Vec::new();
-                if let Ok(v) = lexpr::from_slice_custom(&text, parse_opts(&ro)) {
-                    float_table(&v, &mut tab);
-                    if let Ok(t1) = lexpr::to_vec_custom(&v, print_opts(&crate::ops::pof(&ro))) {
-                        if let Ok(v2) = lexpr::from_slice_custom(&t1, parse_opts(&ro)) { float_table(&v2, &mut tab); }
+                emit(pp_op(&text, &ro));
+            }
+        }
+        "ppfix" => {
+            // deterministic part of the parse-print-parse check: every byte in every escape position,
+            // nesting made of shorthands around the recursion limit, spellings the printer never emits
+            for b in 0..=255u8 {
+                for (pre, post) in ESC_SHAPES {
+                    let mut t = pre.to_vec(); t.push(b); t.extend_from_slice(post);
+                    for ro in [R_DEFAULT, R_ELISP] {
+                        if lexpr::from_slice_custom(&t, parse_opts(ro)).is_ok() { emit(pp_op(&t, ro)); }
                     }
                 }
-                emit(format!("pp {} {} {} {}", ro, fast_flag(), hex(&text), tab.join(" ")));
             }
+            for n in 118..=130usize {
+                for sh in ["'", "`", ",", ",@"] {
+                    emit(pp_op(format!("{}x", sh.repeat(n)).as_bytes(), R_DEFAULT));
+                    emit(pp_op(format!("{}{}x{}", "(".repeat(n.saturating_sub(3)), sh.repeat(3), ")".repeat(n.saturating_sub(3))).as_bytes(), R_DEFAULT));
+                    emit(pp_op(format!("{}({}x){}", "#(".repeat(n / 2), sh.repeat(n - n / 2 - 1), ")".repeat(n / 2)).as_bytes(), R_DEFAULT));
+                }
+                emit(pp_op(format!("{}x{}", "(a . ".repeat(n), ")".repeat(n)).as_bytes(), R_DEFAULT));
+                emit(pp_op(format!("{}x{}", "[".repeat(n), "]".repeat(n)).as_bytes(), R_ELISP));
+            }
+            for text in PP_TEXTS { for ro in [R_DEFAULT, R_ELISP, "1110011111", "0101100010"] { emit(pp_op(text.as_bytes(), ro)); } }
+            for text in PREFIX_TEXTS { for ro in [R_DEFAULT, R_ELISP, "1110011111", "0101100010"] { emit(pp_op(text.as_bytes(), ro)); } }
         }
         "escapes" => {
             // every byte in every escape / character position, both string and char syntaxes
             let ros = [R_DEFAULT, R_ELISP, "0011100100", "1101011010"];
-            let shapes: &[(&[u8], &[u8])] = &[
-                (b"\"\\", b"\""), (b"\"\\", b"41;\""), (b"\"a\\", b"1b\""), (b"?\\", b""), (b"?\\", b"41"), (b"?", b""), (b"?", b"a"),
-                (b"#\\", b""), (b"#\\", b"x"), (b"#\\x", b""), (b"#\\x4", b""), (b"\"\\x", b";\""), (b"\"\\x4", b";\""), (b"\"\\u00", b"0\""),
-                (b"\"\\N{U+", b"}\""), (b"\"\\N{U+4", b"\""), (b"\"\\^", b"\""), (b"?\\^", b""), (b"?\\N{U+4", b"}"), (b"\"\\1", b"\""), (b"?\\1", b""),
-                (b"\"\\U0000004", b"\""), (b"(a .", b"c)"), (b"-", b"x"), (b"+.", b""), (b"1", b""), (b"1.", b"5"), (b"1e", b"5"), (b"#", b""), (b"#", b"a"), (b"a", b"b"), (b",", b"a"),
-            ];
+            let shapes = ESC_SHAPES;
             for b in 0..=255u8 {
-                for (pre, post) in shapes {
+                for (pre, post) in shapes.iter() {
                     let mut t = pre.to_vec(); t.push(b); t.extend_from_slice(post);
                     for (k, ro) in ros.iter().enumerate() {
                         if count >= 2 || (b as usize + k) % 2 == 0 {
@@ -815,6 +882,24 @@ pub fn generate(family: &str, seed: u64, count: usize, emit: &mut dyn FnMut(Stri
                 }
             }
         }
+        "rtwide" => {
+            // round trips of wide, shallow values: many sibling compounds of every kind in one value
+            let kinds: Vec<Value> = vec![
+                Value::Vector(vec![].into()), Value::Vector(vec![Value::symbol("x")].into()), Value::list(vec![Value::symbol("x")]), Value::Null,
+                Value::list(vec![Value::symbol("quote"), Value::symbol("x")]), Value::bytes(vec![1u8, 2]), Value::cons(Value::symbol("a"), Value::symbol("b")),
+                Value::Vector(vec![Value::Vector(vec![Value::from(1)].into())].into()), Value::string("s"), Value::cons(Value::from(1), Value::Vector(vec![].into())),
+            ];
+            for k in &kinds {
+                for n in [126usize, 127, 128, 200, 300] {
+                    let xs: Vec<Value> = (0..n).map(|_| k.clone()).collect();
+                    let alist = Value::list(xs.iter().enumerate().map(|(i, x)| Value::cons(Value::symbol(format!("k{}", i)), x.clone())).collect::<Vec<_>>());
+                    for v in [Value::list(xs.clone()), Value::Vector(xs.clone().into()), alist] {
+                        emit(format!("rt {} {} {} {}", P_DEFAULT, R_DEFAULT, fast_flag(), enc_value_text(&v)));
+                        if n == 128 { emit(format!("rt {} {} {} {}", P_ELISP, R_ELISP, fast_flag(), enc_value_text(&v))); }
+                    }
+                }
+            }
+        }
         "deep" => {
             let openers: &[&str] = &["(", "[", "#(", "'", "`", ",", ",@", "(a . ", "#u8(", "(a "];
             for &n in &[1usize, 50, 100, 126, 127, 128, 129, 130, 200, 1000] {
@@ -843,6 +928,28 @@ pub fn generate(family: &str, seed: u64, count: usize, emit: &mut dyn FnMut(Stri
                     emit(parse_op("b", R_DEFAULT, "d1", t.as_bytes()));
                 }
             }
+            // many sibling compounds in one parse and in one parser's history: the depth budget must
+            // come back after every compound, successful or not, in both parsers
+            let sibs: &[(&str, &str)] = &[("#(x)", R_DEFAULT), ("#()", R_DEFAULT), ("(x)", R_DEFAULT), ("()", R_DEFAULT), ("[x]", R_DEFAULT), ("[x]", R_ELISP), ("[]", R_ELISP),
+                ("'x", R_DEFAULT), (",@x", R_DEFAULT), ("`(,x)", R_DEFAULT), ("#u8(1)", R_DEFAULT), ("(a . b)", R_DEFAULT), ("(a . (b))", R_DEFAULT), ("(a . #(b))", R_DEFAULT), ("#(#(x))", R_DEFAULT),
+                ("'#z", R_DEFAULT), ("(#z", R_DEFAULT), ("#(#z", R_DEFAULT), ("(a . #z", R_DEFAULT), ("#(", R_DEFAULT), ("(]", R_DEFAULT), ("'", R_DEFAULT), ("#(x]", R_DEFAULT), ("')", R_DEFAULT)];
+            for (sib, ro) in sibs {
+                for n in [126usize, 127, 128, 129, 200] {
+                    let flat = format!("{} ", sib).repeat(n);
+                    for api in ["v1", "d1"] {
+                        emit(parse_op("b", ro, api, format!("({})", flat).as_bytes()));
+                        emit(parse_op("b", ro, api, format!("#({})", flat).as_bytes()));
+                    }
+                    if n == 129 || n == 200 {
+                        let nest = format!("{}x{}", "(".repeat(126), ")".repeat(126));
+                        for api in ["v", "d", "i", "j", "p"] {
+                            // the siblings, then a value nested to just below the limit, on one parser
+                            emit(parse_op("b", ro, &format!("r:{}:{}", api, n + 3), format!("{}{}", flat, nest).as_bytes()));
+                        }
+                        emit(parse_op("i7", ro, &format!("r:v:{}", n + 3), format!("{}{}", flat, nest).as_bytes()));
+                    }
+                }
+            }
             // iterating past recursion-limit errors
             let t = "(".repeat(20000);
             emit(parse_op("b", R_DEFAULT, "r:v:400", t.as_bytes()));
@@ -857,10 +964,30 @@ pub fn generate(family: &str, seed: u64, count: usize, emit: &mut dyn FnMut(Stri
     }
 }
 
+pub const ESC_SHAPES: &[(&[u8], &[u8])] = &[
+                (b"\"\\", b"\""), (b"\"\\", b"41;\""), (b"\"a\\", b"1b\""), (b"?\\", b""), (b"?\\", b"41"), (b"?", b""), (b"?", b"a"),
+                (b"#\\", b""), (b"#\\", b"x"), (b"#\\x", b""), (b"#\\x4", b""), (b"\"\\x", b";\""), (b"\"\\x4", b";\""), (b"\"\\u00", b"0\""),
+                (b"\"\\N{U+", b"}\""), (b"\"\\N{U+4", b"\""), (b"\"\\^", b"\""), (b"?\\^", b""), (b"?\\N{U+4", b"}"), (b"\"\\1", b"\""), (b"?\\1", b""),
+                (b"\"\\U0000004", b"\""), (b"(a .", b"c)"), (b"-", b"x"), (b"+.", b""), (b"1", b""), (b"1.", b"5"), (b"1e", b"5"), (b"#", b""), (b"#", b"a"), (b"a", b"b"), (b",", b"a"),
+            
+    (b"ab", b" "), (b"(ab", b")"), (b"#(-a\xf0\x9f", b")"), (b"a\xe2", b" "), (b"(a . b", b")"), (b"\"caf\xc3\xa9\\x0", b"\""), (b"\"\xce\xbb\\", b"\""), (b"'", b"a"), (b"' ", b""),
+];
+
+fn pp_op(text: &[u8], ro: &str) -> String {
+    let mut tab: Vec<String> = Vec::new();
+    if let Ok(v) = lexpr::from_slice_custom(text, parse_opts(ro)) {
+        float_table(&v, &mut tab);
+        if let Ok(t1) = lexpr::to_vec_custom(&v, print_opts(&crate::ops::pof(ro))) {
+            if let Ok(v2) = lexpr::from_slice_custom(&t1, parse_opts(ro)) { float_table(&v2, &mut tab); }
+        }
+    }
+    format!("pp {} {} {} {}", ro, fast_flag(), hex(text), tab.join(" "))
+}
+
 pub const PREFIX_TEXTS: &[&str] = &[
     "#nil", "#t", "#f", "#x1F", "#b-101", "#o+17", "#d42", "1.5", "1e21", "1.5e+10", "-2.5E-3", "#\\newline", "#\\x41",
     "#\\space", "#\\a", "#\\λ", "\"a\\x41;b\"", "\"\\n\\t\\\\\"", "#u8(1 2 255)", "#vu8(0)", "'a", "`(a ,b ,@c)", "λx", "aλ",
-    "(a . b)", "#(1 #(2))", "#:kw", "(1 #x10)", "\"λ\"", ".5x", "...", "+.x", "(.x)", "(a .b)", "#\\xD8000", "#\\delete",
+    "(a . b)", "#(1 #(2))", "#u8(#xFF 1 #b101 #o7 #d9)", "#vu8(#x-0 +5)", "#:kw", "(1 #x10)", "\"λ\"", ".5x", "...", "+.x", "(.x)", "(a .b)", "#\\xD8000", "#\\delete",
     "?a", "?\\^a", "?\\N{U+41}", "?\\u00e9", "?\\x41", "?\\101", "\"\\u00e9\\101\"", "[1 2]", ":kw", "\"\\N{U+3bb}\"", "\"\\^a\"",
 ];
 
@@ -878,6 +1005,7 @@ pub const TOKEN_CORPUS: &[&str] = &[
     "1", "12", "1.5", "-1", "+1", "-", "+", "-a", "+a:", "1a", "1:", "9z:", "?a", "?\\(", "?", "?:", "#%a", "#%", "#%a:", "a", "ab", "λ", "λ:", "$x", "$x:",
     ".a", ".a:", "...", "'a", "`a", ",a", ",@a", "'nil", "'t", "#t", "#f", "#nil", "\"s\"", "#\\a", "(a)", "[a]", "[a b]", "()", "[]", "#(a)", "nil.t", "a.b",
     "1e", "1.", "-.5", "+.a", "12:", "1e3:", "a::", "x:y", "#x1F", "#b2",
+    "+.a:", "-.foo:", "+..:", "-.:", "-a:", "...:", "..a:", "+:", "-:", "1#t", "#x1F#t", "-5#t", "1.5#f", "1|", "a#t", "+.5:", "-.5a", ".5:", "#t:", "'a:", "?a:", "#\\a:",
 ];
 
 pub const POSITIONS: &[&str] = &["@", "(@ x)", "(x @)", "(x . @)", "#(@)", "#(x @)", "[@]", "[x @]", "(@)", "(x @ y)", " @ ", "@;c", "'@", "(x . @ )", "[x . @]", "@\n", "@\x0c", "@\"s\"", "@|"];
@@ -997,7 +1125,17 @@ fn digits(r: &mut Rng, radix: u32, n: usize) -> String {
 
 pub fn gen_num_literal(r: &mut Rng) -> String {
     let sign = *r.pick(&["", "", "-", "+"]);
-    match r.below(12) {
+    match r.below(13) {
+        12 => {
+            // exponents at the edge of i32 combined with mantissas that carry an exponent of their own
+            let a = *r.pick(&[1usize, 1, 2, 19, 20, 21, 25, 40]);
+            let int = if r.chance(1, 4) { "0".to_string() } else { digits(r, 10, a) };
+            let (n1, n2, z) = (1 + r.below(3), 1 + r.below(25), r.below(4));
+            let frac = match r.below(4) { 0 => String::new(), 1 => format!(".{}", digits(r, 10, n1)), 2 => format!(".{}{}", "0".repeat(z), digits(r, 10, n2)), _ => ".0".to_string() };
+            let e = *r.pick(&[2147483647u64, 2147483646, 2147483648, 2147483649, 2147483640, 2147483600, 4294967295, 4294967296, 4294967297, 99999999999, 9223372036854775807, 2147483627, 2147483628, 1073741824]);
+            let e = if r.chance(1, 4) { e - r.below(40) as u64 } else { e };
+            format!("{}{}{}{}{}{}", sign, int, frac, r.pick(&["e", "E"]), r.pick(&["", "+", "-", "-"]), e)
+        }
         0 => {
             // integer at a 64-bit boundary in some radix
             let n = boundary_u64(r) as u128 + *r.pick(&[0u128, 0, 1, u64::MAX as u128, 1 << 63]);
